@@ -197,6 +197,37 @@ def main():
                 if a[1] != b["a"] or a[3] != b["r"] or not all(close(x, unfrac(y)) for x, y in zip(a[2], b["p"])):
                     ck.mismatch("SYSGEN.choice", dict(inp, call=k), {"a": a[1], "p": a[2], "r": a[3]}, b)
                     break
+    # ---- histories on ONE System object: an iteration that the consumer abandons after k members, then a complete iteration: the complete one
+    # starts from an accumulated mass of 0 whatever happened before
+    nh = 0
+    for rec in recs:
+        if nh >= (12 if quick else 150):
+            break
+        if rec["single"] or rec["error"] is not None or not rec["generable"] or rec["M"] is None or len(rec["infos"]) < 3:
+            continue
+        nh += 1
+        system, M = rec["system"], rec["M"]
+        k = rnd.randint(1, max(1, len(rec["infos"]) - 1))
+        sysrun.run_system(system, Recorder(ck.seed * 13 + nh), stop_after=k)
+        members, err, _ = sysrun.run_system(system, Recorder(ck.seed * 17 + nh))
+        inp = {"text": rec["text"], "system_mass": rec["sysmass"], "history": f"iterate, abandon after {k} members, iterate completely"}
+        ck.evaluations += 1
+        ck.count("abandoned-then-complete-iterations")
+        if err is not None:
+            if not genrun.is_c11_draw_failure(err):
+                ck.note(f"complete iteration after an abandoned one raised {type(err).__name__}: {err} on {rec['text'][:80]}")
+            continue
+        acc = 0.0
+        bad = None
+        for j, m in enumerate(members):
+            if not (acc < M):
+                bad = f"member {j} yielded although the mass yielded by THIS iteration is already {acc} >= system mass {M}"
+                break
+            acc += float(m.weight)
+        if bad is None and acc < M and abs(acc - M) > 1e-9 * max(1.0, M):
+            bad = f"the complete iteration after an abandoned one stopped at an accumulated mass of {acc} < system mass {M} ({len(members)} members)"
+        if bad:
+            ck.fail("stop-rule-depends-on-earlier-iteration", inp, bad)
     ck.rule = ("one case = one iteration of System.generator (80 %) or one System.generate call (20 %) on a system of 1-4 components made "
                "distinguishable by marker atoms (F, Cl, Br, I), system masses from below one molecule to ~30 molecules; non-trivial = at least one member; "
                "distinct by (string, history)")
